@@ -556,9 +556,7 @@ class Dict(dict, base.Symbolic, pg_typing.CustomTyping):
                 f'Key {key!r} is not allowed for {container_cls}.'))
 
     # Detach old value from object tree.
-    if isinstance(old_value, base.TopologyAware):
-      old_value.sym_setparent(None)
-      old_value.sym_setpath(utils.KeyPath())
+    self._detach(old_value)
 
     if (pg_typing.MISSING_VALUE == value and
         (not field or isinstance(field.key, pg_typing.NonConstKey))):
@@ -582,6 +580,12 @@ class Dict(dict, base.Symbolic, pg_typing.CustomTyping):
       target = self.sym_parent
     return base.FieldUpdate(
         self.sym_path + key, target, field, old_value, new_value)
+
+  def _detach(self, value: Any) -> None:
+    """Detaches a removed or replaced value from the object tree."""
+    if isinstance(value, base.TopologyAware):
+      value.sym_setparent(None)
+      value.sym_setpath(utils.KeyPath())
 
   def _formalized_value(
       self, name: Union[str, int],
@@ -781,7 +785,9 @@ class Dict(dict, base.Symbolic, pg_typing.CustomTyping):
           '\'popitem\' cannot be performed on a Dict with value spec.')
     if base.treats_as_sealed(self):
       raise base.WritePermissionError('Cannot pop item from a sealed Dict.')
-    return super().popitem()
+    key, value = super().popitem()
+    self._detach(value)
+    return key, value
 
   def clear(self) -> None:
     """Removes all the keys in current dict."""
@@ -789,6 +795,8 @@ class Dict(dict, base.Symbolic, pg_typing.CustomTyping):
       raise base.WritePermissionError('Cannot clear a sealed Dict.')
     value_spec = self._value_spec
     self._value_spec = None
+    for value in self.sym_values():
+      self._detach(value)
     super().clear()
 
     if value_spec:
